@@ -504,9 +504,8 @@ package bpmn
 //@ func newFlow
 //@   prop C20 C01
 //@   modifies nothing
-//@   ensures [one-draw] evlen == old(evlen) + 1 && isCall(ev(old(evlen))) && evch(ev(old(evlen))) == code("id|IGenerator.New") &&
-//@             evval(ev(old(evlen))) == idGenerator
-//@   ensures [id-is-the-draw] result != nil && fresh(result) && result.id == eva1(ev(old(evlen)))
+//@   emits Call(code("id|IGenerator.New"), idGenerator, result.id)
+//@   ensures [id-is-the-draw] result != nil && fresh(result) && tag(result.id) != 0
 //@   ensures [wired] result.current == current && result.tracer == tracer && result.flowNodeMapping == flowNodeMapping &&
 //@             result.flowWaitGroup == flowWaitGroup && result.idGenerator == idGenerator && result.locator == locator &&
 //@             result.definitions == definitions && result.actionTransformer == actionTransformer &&
@@ -542,6 +541,11 @@ package bpmn
 //@             exists p int :: old(evlen) <= p && p < evlen - 1 && isTrace(ev(p)) && is(evval(ev(p)), LeaveTrace)
 //@   ensures [only-traces-and-evaluation] forall p int :: old(evlen) <= p && p < evlen ==> (isTrace(ev(p)) && evch(ev(p)) == ref(f.tracer)) || isOpaque(ev(p))
 //@   ensures [no-flow-trace] forall p int :: old(evlen) <= p && p < evlen && isTrace(ev(p)) ==> !is(evval(ev(p)), FlowTrace) && !is(evval(ev(p)), TerminationTrace)
+//@   ensures [counts] count(Trace, FlowTrace) == old(count(Trace, FlowTrace)) && count(Trace, TerminationTrace) == old(count(Trace, TerminationTrace)) &&
+//@             count(Spawn, code("(*flow).Start$1")) == old(count(Spawn, code("(*flow).Start$1"))) &&
+//@             count(WgDone, f.flowWaitGroup) == old(count(WgDone, f.flowWaitGroup)) &&
+//@             count(Call, code("id|IGenerator.New")) == old(count(Call, code("id|IGenerator.New")))
+//@   ensures [visit-iff-flowed] count(Trace, VisitTrace) == old(count(Trace, VisitTrace)) + (flowed ? 1 : 0)
 //@   ensures f.retry == old(f.retry) && f.id == old(f.id) && f.tracer == old(f.tracer) && f.idGenerator == old(f.idGenerator) &&
 //@           f.flowNodeMapping == old(f.flowNodeMapping) && f.flowWaitGroup == old(f.flowWaitGroup) && f.locator == old(f.locator)
 
@@ -549,6 +553,7 @@ package bpmn
 // starter of the new token; one that will not flow draws none.  The current token is not moved.
 //@ func (*flow).handleAdditionalSequenceFlow
 //@   prop C01 C09 C20
+//@   ensures [starter-is-the-fork-literal] flowed ==> fncode(handle) == code("(*flow).handleAdditionalSequenceFlow$1")
 //@   ensures [flowing-fork-draws-one-id] flowed ==> handle != nil && tag(flowId) != 0 &&
 //@             isCall(ev(evlen - 1)) && evch(ev(evlen - 1)) == code("id|IGenerator.New") && evval(ev(evlen - 1)) == f.idGenerator &&
 //@             eva1(ev(evlen - 1)) == flowId &&
@@ -557,6 +562,11 @@ package bpmn
 //@             forall p int :: old(evlen) <= p && p < evlen ==> !(isCall(ev(p)) && evch(ev(p)) == code("id|IGenerator.New"))
 //@   ensures [nothing-started-yet] forall p int :: old(evlen) <= p && p < evlen ==> !isSpawn(ev(p)) && !isWgAdd(ev(p)) &&
 //@             !(isTrace(ev(p)) && (is(evval(ev(p)), FlowTrace) || is(evval(ev(p)), TerminationTrace) || is(evval(ev(p)), VisitTrace)))
+//@   ensures [counts] count(Trace, FlowTrace) == old(count(Trace, FlowTrace)) && count(Trace, TerminationTrace) == old(count(Trace, TerminationTrace)) &&
+//@             count(Trace, VisitTrace) == old(count(Trace, VisitTrace)) &&
+//@             count(Spawn, code("(*flow).Start$1")) == old(count(Spawn, code("(*flow).Start$1"))) &&
+//@             count(WgDone, f.flowWaitGroup) == old(count(WgDone, f.flowWaitGroup)) &&
+//@             count(Call, code("id|IGenerator.New")) == old(count(Call, code("id|IGenerator.New"))) + (flowed ? 1 : 0)
 //@   ensures [current-token-untouched] f.current == old(f.current) && f.sequenceFlowId == old(f.sequenceFlowId) && f.terminate == old(f.terminate) &&
 //@             f.actionTransformer == old(f.actionTransformer) && f.retry == old(f.retry) && f.id == old(f.id) && f.tracer == old(f.tracer) &&
 //@             f.idGenerator == old(f.idGenerator) && f.flowNodeMapping == old(f.flowNodeMapping) && f.flowWaitGroup == old(f.flowWaitGroup) && f.locator == old(f.locator)
@@ -582,5 +592,71 @@ package bpmn
 //@             evval(ev(p)).(*flow).locator == f.locator && evval(ev(p)).(*flow).flowNodeMapping == f.flowNodeMapping &&
 //@             evval(ev(p)).(*flow).current == flowNode && evval(ev(p)).(*flow).terminate == terminate &&
 //@             evval(ev(p)).(*flow).actionTransformer == actionTransformer
+//@   ensures [counts] count(Spawn, code("(*flow).Start$1")) == old(count(Spawn, code("(*flow).Start$1"))) + 1 &&
+//@             count(Trace, FlowTrace) == old(count(Trace, FlowTrace)) && count(Trace, TerminationTrace) == old(count(Trace, TerminationTrace)) &&
+//@             count(WgDone, f.flowWaitGroup) == old(count(WgDone, f.flowWaitGroup))
 //@   ensures [counted-before-started] forall p int :: old(evlen) <= p && p < evlen && isSpawn(ev(p)) ==>
 //@             exists q int :: old(evlen) <= q && q < p && isWgAdd(ev(q)) && evch(ev(q)) == f.flowWaitGroup
+
+// Interface contract of flow nodes as seen by a token: what a node does while being asked for the next action
+// (its own messaging and bookkeeping) is abstracted to opaque events in the token's log.
+//@ func IOutgoing.NextAction
+//@   assumed
+//@   flag emits opaque
+//@   flag allocs
+
+// The token goroutine.  Counting clauses use the ghost event counters count(Kind, T):
+// number of events of that kind so far whose payload has dynamic type T (or whose code / wait group is given).
+//@ spec func tokFrame(f *flow) bool =
+//@   f.tracer == old(f.tracer) && f.flowWaitGroup == old(f.flowWaitGroup) && f.id == old(f.id) && f.idGenerator == old(f.idGenerator) &&
+//@   count(WgDone, f.flowWaitGroup) == old(count(WgDone, f.flowWaitGroup)) &&
+//@   count(Trace, TerminationTrace) == old(count(Trace, TerminationTrace))
+//@ spec func iterFrame(f *flow) bool =
+//@   count(Trace, FlowTrace) == athead(1, count(Trace, FlowTrace))
+//@ spec func noVisitYet(f *flow) bool =
+//@   count(Trace, VisitTrace) == athead(1, count(Trace, VisitTrace))
+
+//@ func (*flow).Start$1
+//@   prop C01 C04 C06 C07 C08 C09
+//@   requires f.tracer != nil && f.flowWaitGroup != nil
+//@   ensures [announces-itself-first] isTrace(ev(old(evlen))) && is(evval(ev(old(evlen))), NewFlowTrace)
+//@   ensures [counted-out-exactly-once] count(WgDone, f.flowWaitGroup) == old(count(WgDone, f.flowWaitGroup)) + 1 &&
+//@             isWgDone(ev(evlen - 2)) && evch(ev(evlen - 2)) == f.flowWaitGroup
+//@   ensures [sender-released-last] isCall(ev(evlen - 1)) && evch(ev(evlen - 1)) == code("tracing|ISenderHandle.Done")
+//@   ensures [at-most-one-termination-trace] count(Trace, TerminationTrace) <= old(count(Trace, TerminationTrace)) + 1
+//@   ensures [termination-is-the-last-trace] count(Trace, TerminationTrace) == old(count(Trace, TerminationTrace)) + 1 ==>
+//@             isTrace(ev(evlen - 3)) && is(evval(ev(evlen - 3)), TerminationTrace)
+//@   loop 1 for
+//@     invariant tokFrame(f)
+//@     invariant evlen >= old(evlen) + 2 && isTrace(ev(old(evlen))) && is(evval(ev(old(evlen))), NewFlowTrace)
+//@     iter ensures [a-step-that-forks-moves-the-current-token] count(Trace, FlowTrace) > old(count(Trace, FlowTrace)) ==>
+//@             count(Trace, VisitTrace) == old(count(Trace, VisitTrace)) + 1
+//@     iter ensures [at-most-one-announcement-per-step] count(Trace, FlowTrace) <= old(count(Trace, FlowTrace)) + 1
+//@     iter ensures [retry-uses-the-handlers-limit-and-consumes-one-attempt] handler.Mode == RetryMode ==>
+//@             f.retry != nil && f.retry.limit == handler.Retries &&
+//@             f.retry.attempts == (old(f.retry) == nil ? 0 : old(f.retry.attempts)) + 1 &&
+//@             (f.retry.limit == -1 || f.retry.attempts <= f.retry.limit) &&
+//@             (old(f.retry) != nil ==> f.retry == old(f.retry))
+//@     iter ensures [only-a-retry-repeats-the-request-after-an-error] handler.Mode == RetryMode
+//@   loop 2 range a.sequenceFlows
+//@     invariant forall b int :: off(results) <= b && b < off(results) + len(results) ==> 0 <= at(results, b) && at(results, b) < i
+//@     invariant forall b int, c int :: off(results) <= b && b < c && c < off(results) + len(results) ==> at(results, b) < at(results, c)
+//@     invariant tokFrame(f) && iterFrame(f) && noVisitYet(f) && count(Recv, ErrHandler) == athead(1, count(Recv, ErrHandler)) && f.retry == athead(1, f.retry)
+//@   loop 3 range res.dataObjects
+//@     invariant tokFrame(f) && iterFrame(f) && noVisitYet(f) && f.retry == athead(1, f.retry)
+//@   loop 4 range res.variables
+//@     invariant tokFrame(f) && iterFrame(f) && noVisitYet(f) && f.retry == athead(1, f.retry)
+//@   loop 5 range a.unconditionalFlows
+//@     invariant tokFrame(f) && iterFrame(f) && noVisitYet(f) && f.retry == athead(1, f.retry) && len(unconditional) == len(sequences)
+//@   loop 6 range rest
+//@     invariant tokFrame(f) && iterFrame(f) && f.retry == athead(1, f.retry) && len(unconditional) == len(sequences) && len(rest) == len(sequences) - 1
+//@     invariant count(Trace, VisitTrace) == athead(1, count(Trace, VisitTrace)) + (flowed ? 1 : 0)
+//@     invariant forall b int :: off(flowHandlers) <= b && b < off(flowHandlers) + len(flowHandlers) ==> at(flowHandlers, b) != nil &&
+//@               fncode(at(flowHandlers, b)) == code("(*flow).handleAdditionalSequenceFlow$1")
+//@     invariant len(effectiveFlows) >= len(flowHandlers) && (flowed ==> len(effectiveFlows) == len(flowHandlers) + 1) && (!flowed ==> len(effectiveFlows) == len(flowHandlers))
+//@   loop 7 range flowHandlers
+//@     invariant tokFrame(f) && f.retry == athead(1, f.retry)
+//@     invariant [forks-are-started-after-their-announcement] count(Trace, FlowTrace) == athead(1, count(Trace, FlowTrace)) + 1
+//@     invariant count(Trace, VisitTrace) == athead(1, count(Trace, VisitTrace)) + (flowed ? 1 : 0)
+//@     invariant forall b int :: off(flowHandlers) <= b && b < off(flowHandlers) + len(flowHandlers) ==>
+//@               fncode(at(flowHandlers, b)) == code("(*flow).handleAdditionalSequenceFlow$1")
